@@ -134,6 +134,15 @@ static void vec_steps(pbt::Ctx& c, const T* xs, const int* ns) {
 	for (int i = 0; i < L; ++i) { T t = x[i]; if (!refulp::step<T>(x[i], (i & 1) ? -ns[i] : ns[i], &t)) refulp::step<T>(x[i], (i & 1) ? ns[i] : -ns[i], &t); y[i] = t; }
 	auto d = glm::floatDistance(x, y); auto d2 = glm::float_distance(x, y);
 	for (int i = 0; i < L; ++i) { judge_dist<T>(c, "floatDistance", "vec/", x[i], y[i], d[i]); judge_dist<T>(c, "float_distance", "vec/", x[i], y[i], d2[i]); }
+	// second round, opposite directions; a zero lane is paired with the zero of the other sign (so that the +0/-0 pair does not depend on the random counts)
+	for (int i = 0; i < L; ++i) {
+		T t = x[i];
+		if (refulp::ord<T>(x[i]) == 0) t = frombits<T>(tobits<T>(x[i]) ^ (typename bits_of<T>::U(1) << (sizeof(T) * 8 - 1)));
+		else if (!refulp::step<T>(x[i], (i & 1) ? ns[i] : -ns[i], &t)) refulp::step<T>(x[i], (i & 1) ? -ns[i] : ns[i], &t);
+		y[i] = t;
+	}
+	d = glm::floatDistance(y, x); d2 = glm::float_distance(y, x);
+	for (int i = 0; i < L; ++i) { judge_dist<T>(c, "floatDistance", "vec/", y[i], x[i], d[i]); judge_dist<T>(c, "float_distance", "vec/", y[i], x[i], d2[i]); }
 }
 
 template <class T>
@@ -195,14 +204,14 @@ PBT_SWEEP("steps/float/binade-edges", prop_steps32_edges, F32_EDGES, 1, 1,
           "floatDistance to the n-th neighbour in both argument orders, vec1-4 overloads (int and ivec counts) on 4 distinct lanes; non-trivial = every case; classes: path inside a binade / across a "
           "binade / across zero, negative, subnormal");
 
-// T2b: strided sample of all float patterns (one out of 2^12 quick, one out of 2^7 thorough; position inside the block chosen by the seed)
+// T2b: strided sample of all float patterns (one out of 2^12 quick, one out of 2^6 thorough; position inside the block chosen by the seed)
 static void prop_steps32_strided(pbt::Ctx& c) {
 	float x = u2f((uint32_t)c.draw(1ULL << 32));
 	if (!is_finite(x)) { c.cls("inf/NaN pattern (outside the domain, not evaluated)"); return; }
 	check_steps<float>(c, x);
 }
-PBT_SWEEP("steps/float/strided", prop_steps32_strided, 1ULL << 32, 4096, 128,
-          "one float out of every 2^12 (quick) / 2^7 (thorough) consecutive bit patterns: same checks as steps/float/binade-edges; non-trivial = finite x");
+PBT_SWEEP("steps/float/strided", prop_steps32_strided, 1ULL << 32, 4096, 64,
+          "one float out of every 2^12 (quick) / 2^6 (thorough) consecutive bit patterns: same checks as steps/float/binade-edges; non-trivial = finite x");
 
 // T3: doubles — every binade boundary: sign x exponent field x {mantissa 0,1,2,3, all-ones-{0,1,2}, 2^51, 8 random mantissas}
 static const uint64_t F64_EDGES = 2ULL * 2047 * 16;
@@ -222,7 +231,7 @@ PBT_SWEEP("steps/double/every-binade", prop_steps64_edges, F64_EDGES, 1, 1,
 
 template <class T> static void prop_steps_random(pbt::Ctx& c) { check_steps<T>(c, refulp::gen_base<T>(c)); }
 static void prop_steps_random64(pbt::Ctx& c) { prop_steps_random<double>(c); }
-PBT_RANDOM("steps/double/random", prop_steps_random64, 150000, 10000000,
+PBT_RANDOM("steps/double/random", prop_steps_random64, 150000, 15000000,
            "double x from: +-0, subnormals, binade boundaries +-3, +-max-k, the 141 values straddling zero, moderate, raw finite bit patterns; same checks; non-trivial = every case");
 
 // ---------------------------------------------------------------------------------------------------------------
@@ -259,7 +268,7 @@ static void prop_distance32(pbt::Ctx& c) { prop_distance<float>(c); }
 static void prop_distance64(pbt::Ctx& c) { prop_distance<double>(c); }
 #define DIST_RULE "4 pairs (x from the structured generator; y at 0..66 steps either side, -x, an unrelated value, or up to 2^30 steps away) through floatDistance/float_distance, scalar and vec1-4; " \
 	"pairs whose distance does not fit the return type are not judged; non-trivial = the four distances are pairwise different (a swapped lane is visible)"
-PBT_RANDOM("distance/float/pairs", prop_distance32, 300000, 20000000, DIST_RULE);
-PBT_RANDOM("distance/double/pairs", prop_distance64, 300000, 20000000, DIST_RULE);
+PBT_RANDOM("distance/float/pairs", prop_distance32, 300000, 30000000, DIST_RULE);
+PBT_RANDOM("distance/double/pairs", prop_distance64, 300000, 30000000, DIST_RULE);
 
 int main(int argc, char** argv) { return pbt::pbt_main(argc, argv, "C14"); }
